@@ -90,8 +90,6 @@ func c10ret(err error) string {
 	switch {
 	case err == nil:
 		return "ok"
-	case isRefusal(err):
-		return "refused"
 	}
 	return "err"
 }
@@ -156,13 +154,17 @@ func (p c10Topology) NetworkTopology(hash string) (*topology.NetworkTopology, er
 	return p.t, nil
 }
 
-// C10.handler <keygen|fkeygen|refresh> <noevents|fetcherr|silent|gto|refused>  (refresh also: emptyhash|topoerr|storefail)
+// C10.handler <keygen|fkeygen|refresh> <noevents|fetcherr|silent|gto|refused>[+key]  (refresh also: emptyhash|topoerr|storefail)
 //
 //	the REAL event handler is the entry point: HandleEvents constructs the process and runs Coordinator.Execute itself.
 //	=> <HandleEvents returned ok|err>;L=… of the store the handler's process uses
 func c10handler(a []string) string {
 	which, oc := a[0], a[1]
-	w := newC10World(2, which == "refresh")
+	// `<outcome>+key`: the relayer already HAS a key share when the (key generation) event arrives - a re-processed
+	// block range, a second keygen event
+	hasKey := strings.HasSuffix(oc, "+key")
+	oc = strings.TrimSuffix(oc, "+key")
+	w := newC10World(2, which == "refresh" || hasKey)
 	defer w.close()
 	nd := w.nodes[0]
 	cnt := nd.ec.c
